@@ -490,6 +490,40 @@ func materialStage(r *ev.Run, m int) {
 					}
 				}
 			})
+			// the shaded point on the focus sphere (a lamp resting on the floor: distance == radius exactly, the cap is
+			// the hemisphere), inside it, and a focus point whose filter declines the material: sampler and density
+			// must switch to the other distribution together
+			add("focus-edge", func() {
+				mat := &render3d.LambertMaterial{DiffuseColor: render3d.NewColor(1)}
+				for _, point := range []c3{{}, model3d.XYZ(0.3, -0.4, 0.2)} {
+					for _, dist := range []float64{2.5, 2, 1} {
+						ctr := point.Sub(d.Scale(dist))
+						on := &render3d.SphereFocusPoint{Center: ctr, Radius: ctr.Dist(point)}
+						c := rcase{"SphereFocusPoint", fmt.Sprintf("point %v on the sphere (distance %g)", point, dist), arr(n), arr(d), nil}
+						ss := enumerate(m, 2, func(g *rand.Rand) interface{} { return on.SampleFocus(g, mat, point, n, d) })
+						r.Eval(len(ss))
+						checkLobe(r, "SphereFocusPoint/on-sphere", c.Params, c, point.Sub(ctr).Normalize(), ss, func(s c3) float64 { return on.FocusDensity(mat, point, n, s, d) }, 0)
+						for _, k := range []float64{1.0000001, 1.5, 40} {
+							in := &render3d.SphereFocusPoint{Center: ctr, Radius: k * dist}
+							c := rcase{"SphereFocusPoint", fmt.Sprintf("point %v inside the sphere (radius/distance %g)", point, k), arr(n), arr(d), nil}
+							ss := enumerate(m, 2, func(g *rand.Rand) interface{} { return in.SampleFocus(g, mat, point, n, d) })
+							r.Eval(len(ss))
+							checkLobe(r, "SphereFocusPoint/inside", c.Params, c, n.Scale(-1), ss, func(s c3) float64 { return in.FocusDensity(mat, point, n, s, d) }, 0)
+						}
+						r.NontrivialAdd(1)
+					}
+					no := func(render3d.Material) bool { return false }
+					sf := &render3d.SphereFocusPoint{Center: point.Sub(d.Scale(2.5)), Radius: 1, MaterialFilter: no}
+					c := rcase{"SphereFocusPoint", "material filtered out", arr(n), arr(d), nil}
+					ss := enumerate(m, 2, func(g *rand.Rand) interface{} { return sf.SampleFocus(g, mat, point, n, d) })
+					checkLobe(r, "SphereFocusPoint/filtered", c.Params, c, n.Scale(-1), ss, func(s c3) float64 { return sf.FocusDensity(mat, point, n, s, d) }, 0)
+					pf := &render3d.PhongFocusPoint{Target: point.Sub(d.Scale(2.5)), Alpha: 3, MaterialFilter: no}
+					c = rcase{"PhongFocusPoint", "material filtered out", arr(n), arr(d), nil}
+					ss = enumerate(m, 2, func(g *rand.Rand) interface{} { return pf.SampleFocus(g, mat, point, n, d) })
+					checkLobe(r, "PhongFocusPoint/filtered", c.Params, c, n.Scale(-1), ss, func(s c3) float64 { return pf.FocusDensity(mat, point, n, s, d) }, 0)
+					r.Eval(2 * len(ss))
+				}
+			})
 			// focus spheres of very small angular size (a lamp far away): the quadrature of checkLobe cannot resolve
 			// such caps, but everything is known in closed form, computed here without cancellation from the
 			// half angle a = asin(r/d): density inside = 1/sin^2(a/2), zero outside, samples uniform in the cap
